@@ -11,6 +11,7 @@ Date   : Mar 10, 2018
 from collections import deque
 
 from pymtl3 import *
+from pymtl3.extra import clone_deepcopy
 
 #-------------------------------------------------------------------------
 # PipeQueueCL
@@ -31,7 +32,7 @@ class PipeQueueCL( Component ):
 
   @non_blocking( lambda s: len( s.queue ) < s.queue.maxlen )
   def enq( s, msg ):
-    s.queue.appendleft( msg )
+    s.queue.appendleft( clone_deepcopy( msg ) ) # the value, not the caller's object
 
   @non_blocking( lambda s: len( s.queue ) > 0 )
   def deq( s ):
@@ -63,7 +64,7 @@ class BypassQueueCL( Component ):
 
   @non_blocking( lambda s: len( s.queue ) < s.queue.maxlen )
   def enq( s, msg ):
-    s.queue.appendleft( msg )
+    s.queue.appendleft( clone_deepcopy( msg ) ) # the value, not the caller's object
 
   @non_blocking( lambda s: len( s.queue ) > 0 )
   def deq( s ):
@@ -101,7 +102,7 @@ class NormalQueueCL( Component ):
 
   @non_blocking( lambda s: s.enq_rdy )
   def enq( s, msg ):
-    s.queue.appendleft( msg )
+    s.queue.appendleft( clone_deepcopy( msg ) ) # the value, not the caller's object
 
   @non_blocking( lambda s: s.deq_rdy )
   def deq( s ):
